@@ -924,6 +924,8 @@ class Engine:
                 if sel is None and cl['catch']: sel = 0   # non-matching catch: clang code compares selector and resumes
                 if sel is not None:
                     self.jump(fr, ins.x['unwind']); fr.loc[lp[k].res] = [obj, sel]; fr.ip += 1; return
+            if 'nounwind' in fr.f.attrs:
+                raise Violation('exception propagates out of a function that is noexcept/nounwind (%s): std::terminate' % fr.f.name[:120], 'terminate')
             self.pop_frame(st, fr)
 
     # ------------------------------------------------------------------ threads
